@@ -8,6 +8,7 @@ import (
 	"math/big"
 	"sort"
 	"strings"
+	"sync"
 )
 
 type SortKind int
@@ -100,22 +101,53 @@ func (s *Sort) hi() *big.Int {
 }
 
 type Term struct {
-	Op    string
-	Args  []*Term
-	Sort  *Sort
-	Name  string   // var / app name
-	Val   *big.Int // integer const
-	B     bool     // bool const
-	F     float64  // fp const
-	Bound []*Term  // quantifier-bound vars
-	Pats  [][]*Term // optional explicit patterns (quantifiers)
-	NoWrap bool    // app whose result is known to be in range (no wrap in Int mode)
-	id    int
+	Op     string
+	Args   []*Term
+	Sort   *Sort
+	Name   string    // var / app name
+	Val    *big.Int  // integer const
+	B      bool      // bool const
+	F      float64   // fp const
+	Bound  []*Term   // quantifier-bound vars
+	Pats   [][]*Term // optional explicit patterns (quantifiers)
+	NoWrap bool      // app whose result is known to be in range (no wrap in Int mode)
+	id     int
 }
 
 var termCounter int
 
+// Structural sharing (hash-consing) for operators whose nodes carry no extra fields: structurally equal terms are
+// pointer-equal, which lets the simplifier recognise repeated conditions.
+var consOps = map[string]bool{"not": true, "and": true, "or": true, "=>": true, "ite": true, "=": true, "distinct": true,
+	"add": true, "sub": true, "mul": true, "div": true, "rem": true, "neg": true, "band": true, "bor": true, "bxor": true, "bandnot": true, "bnot": true,
+	"shl": true, "shr": true, "lt": true, "le": true, "conv": true, "i2f": true, "f2i": true, "select": true, "store": true, "constarr": true,
+	"fadd": true, "fsub": true, "fmul": true, "fdiv": true, "fneg": true, "fabs": true, "fsqrt": true, "fceil": true, "flt": true, "fle": true, "feq": true,
+	"fisnan": true, "fisinf": true, "iadd": true, "isub": true, "fldiv": true, "flmod": true}
+var consTable = map[string]*Term{}
+var termMu sync.Mutex
+
 func mk(op string, s *Sort, args ...*Term) *Term {
+	if consOps[op] {
+		var sb strings.Builder
+		sb.WriteString(op)
+		sb.WriteByte('|')
+		sb.WriteString(s.String())
+		for _, a := range args {
+			fmt.Fprintf(&sb, "|%d", a.id)
+		}
+		k := sb.String()
+		termMu.Lock()
+		defer termMu.Unlock()
+		if t, ok := consTable[k]; ok {
+			return t
+		}
+		termCounter++
+		t := &Term{Op: op, Args: args, Sort: s, id: termCounter}
+		consTable[k] = t
+		return t
+	}
+	termMu.Lock()
+	defer termMu.Unlock()
 	termCounter++
 	return &Term{Op: op, Args: args, Sort: s, id: termCounter}
 }
@@ -130,18 +162,41 @@ func mkBool(b bool) *Term {
 	return tFalse
 }
 
+var constTable = map[string]*Term{}
+
 func mkIntBig(s *Sort, v *big.Int) *Term {
-	t := mk("const", s)
-	t.Val = new(big.Int).Set(v)
+	val := new(big.Int).Set(v)
 	if s.K == SGoInt {
-		t.Val = wrapBig(t.Val, s)
+		val = wrapBig(val, s)
 	}
+	k := s.String() + "|" + val.String()
+	termMu.Lock()
+	if t, ok := constTable[k]; ok {
+		termMu.Unlock()
+		return t
+	}
+	termMu.Unlock()
+	t := mk("const", s)
+	t.Val = val
+	termMu.Lock()
+	constTable[k] = t
+	termMu.Unlock()
 	return t
 }
 func mkInt(s *Sort, v int64) *Term { return mkIntBig(s, big.NewInt(v)) }
 func mkFP(f float64) *Term {
+	k := fmt.Sprintf("fp|%x", math.Float64bits(f))
+	termMu.Lock()
+	if t, ok := constTable[k]; ok {
+		termMu.Unlock()
+		return t
+	}
+	termMu.Unlock()
 	t := mk("const", sortFP)
 	t.F = f
+	termMu.Lock()
+	constTable[k] = t
+	termMu.Unlock()
 	return t
 }
 
@@ -156,9 +211,21 @@ func wrapBig(v *big.Int, s *Sort) *big.Int {
 
 var freshCounter = map[string]int{}
 
+var varTable = map[string]*Term{}
+
 func mkVar(name string, s *Sort) *Term {
+	k := name + "|" + s.String()
+	termMu.Lock()
+	if t, ok := varTable[k]; ok {
+		termMu.Unlock()
+		return t
+	}
+	termMu.Unlock()
 	t := mk("var", s)
 	t.Name = name
+	termMu.Lock()
+	varTable[k] = t
+	termMu.Unlock()
 	return t
 }
 
@@ -543,8 +610,23 @@ func mkStore(arr, idx, v *Term) *Term {
 func mkConstArr(s *Sort, v *Term) *Term { return mk("constarr", s, v) }
 
 func mkApp(name string, s *Sort, args ...*Term) *Term {
+	var sb strings.Builder
+	sb.WriteString("app|" + name + "|" + s.String())
+	for _, a := range args {
+		fmt.Fprintf(&sb, "|%d", a.id)
+	}
+	k := sb.String()
+	termMu.Lock()
+	if t, ok := consTable[k]; ok {
+		termMu.Unlock()
+		return t
+	}
+	termMu.Unlock()
 	t := mk("app", s, args...)
 	t.Name = name
+	termMu.Lock()
+	consTable[k] = t
+	termMu.Unlock()
 	return t
 }
 
@@ -603,6 +685,62 @@ func (t *Term) str(sb *strings.Builder, depth int) {
 			a.str(sb, depth+1)
 		}
 		sb.WriteString(")")
+	}
+}
+
+// simplifyUnder rewrites t assuming the given boolean terms have the given truth values (pointer identity thanks to sharing).
+func simplifyUnder(t *Term, lits map[*Term]bool) *Term {
+	if len(lits) == 0 {
+		return t
+	}
+	cache := map[*Term]*Term{}
+	var rec func(t *Term) *Term
+	rec = func(t *Term) *Term {
+		if r, ok := cache[t]; ok {
+			return r
+		}
+		var r *Term
+		if v, ok := lits[t]; ok && t.Sort.K == SBool {
+			r = mkBool(v)
+		} else if len(t.Args) == 0 || t.Op == "forall" || t.Op == "exists" {
+			r = t
+		} else {
+			changed := false
+			args := make([]*Term, len(t.Args))
+			for i, a := range t.Args {
+				args[i] = rec(a)
+				if args[i] != a {
+					changed = true
+				}
+			}
+			if changed {
+				r = rebuild(t, args)
+			} else {
+				r = t
+			}
+		}
+		cache[t] = r
+		return r
+	}
+	return rec(t)
+}
+
+// unitLits extracts literals (atoms and negated atoms, through conjunctions) that hold when all of fs hold.
+func unitLits(fs []*Term, into map[*Term]bool) {
+	for _, f := range fs {
+		switch {
+		case f.Op == "and":
+			unitLits(f.Args, into)
+		case f.Op == "not":
+			if f.Args[0].Op != "const" {
+				into[f.Args[0]] = false
+			}
+		case f.Op == "const":
+		default:
+			if f.Sort.K == SBool {
+				into[f] = true
+			}
+		}
 	}
 }
 
@@ -701,8 +839,10 @@ type Mode int
 const (
 	ModeInt Mode = iota
 	ModeBV
-	ModeReal // Int encoding for integers, floats as reals with the standard rounding-error model
+	ModeReal   // Int encoding for integers, floats as reals with the standard rounding-error model
 	ModePruned // Int encoding, irrelevant quantified hypotheses dropped
+	ModePrunedReal
+	ModePrunedBV
 )
 
 func (m Mode) String() string {
@@ -714,6 +854,12 @@ func (m Mode) String() string {
 	}
 	if m == ModePruned {
 		return "pruned"
+	}
+	if m == ModePrunedReal {
+		return "pruned-real"
+	}
+	if m == ModePrunedBV {
+		return "pruned-bv"
 	}
 	return "int"
 }
@@ -741,9 +887,15 @@ type smtPrinter struct {
 
 func newSmtPrinter(mode Mode) *smtPrinter {
 	relaxed := false
-	if mode == ModeReal {
+	if mode == ModeReal || mode == ModePrunedReal {
 		mode = ModeInt
 		relaxed = true
+	}
+	if mode == ModePruned {
+		mode = ModeInt
+	}
+	if mode == ModePrunedBV {
+		mode = ModeBV
 	}
 	return &smtPrinter{relaxed: relaxed, mode: mode, declSet: map[string]bool{}, names: map[*Term]string{}, refs: map[*Term]int{}, sorts: map[string]bool{}, wraps: map[string]bool{}, funs: map[string]bool{}}
 }
@@ -1087,7 +1239,6 @@ func (p *smtPrinter) prFP(t *Term, rec func(*Term) string, nary func(string) str
 	}
 	panic("prFP: " + t.Op)
 }
-
 
 func realLit(f float64) string {
 	if math.IsNaN(f) || math.IsInf(f, 0) {
